@@ -167,17 +167,51 @@ def rule_state(report, run, label, clause=None, config_ok=True):
 
 
 def _pop_guarded(node, fn):
-    """s.pop() dominated by `len(s) == 1`"""
+    """s.pop() on a set that has exactly one element at that point: inside `if len(s) == 1`
+    (the size may be held in a local), or after an `if len(s) != 1: return/raise/continue`."""
+    from ..core.astutil import resolve_local
     if fn is None:
         return False
     target = src(node.func.value) if isinstance(node, ast.Call) and isinstance(node.func, ast.Attribute) else None
     if target is None:
         return False
-    for n in walk_no_nested(fn.node):
-        if isinstance(n, ast.If) and src(n.test) == f"len({target}) == 1":
-            if any(x is node for st in n.body for x in walk_no_nested(st)):
-                return True
-    return False
+
+    def size_is_one(test):
+        t = resolve_local(fn, test, keep=(target,))
+        txt = src(t)
+        if txt in (f"len({target}) == 1", f"1 == len({target})"):
+            return True
+        if txt in (f"len({target}) != 1", f"1 != len({target})", f"not len({target}) == 1"):
+            return False
+        return None
+
+    def contains(st):
+        return any(x is node for x in walk_no_nested(st))
+
+    def visit(body):
+        established = False
+        for st in body:
+            if contains(st):
+                if established:
+                    return True
+                if isinstance(st, ast.If):
+                    v = size_is_one(st.test)
+                    if v is True and any(contains(x) for x in st.body):
+                        return True
+                    if v is False and any(contains(x) for x in st.orelse):
+                        return True
+                    return visit(st.body) or visit(st.orelse)
+                for blk in ("body", "orelse", "finalbody"):
+                    if isinstance(getattr(st, blk, None), list) and visit(getattr(st, blk)):
+                        return True
+                return False
+            if isinstance(st, ast.If) and size_is_one(st.test) is False and st.body \
+                    and isinstance(st.body[-1], (ast.Return, ast.Raise, ast.Continue, ast.Break)) and not st.orelse:
+                established = True
+            elif isinstance(st, (ast.Assign, ast.AugAssign, ast.Expr)) and target in src(st) and established:
+                established = False      # the set may have been changed
+        return False
+    return visit(fn.node.body)
 
 
 def rule_hashorder(report, run, label, clause=None):
